@@ -152,7 +152,7 @@ def setup(ctx):
     ctx.see("tapped_pseudoinverse_definers", sorted(c.__name__ for c in owners))
 
 
-KINDS2 = tx.HOMOG + tx.EXTRA_HOMOG + ["ThinPlateSplines", "PiecewiseAffine", "PythonPWA", "tcoords", "PWA_trimesh_target", "PWA_mirrored_target", "TPS_large_unit"]
+KINDS2 = tx.HOMOG + tx.EXTRA_HOMOG + ["ThinPlateSplines", "PiecewiseAffine", "PythonPWA", "tcoords", "PWA_trimesh_target", "PWA_mirrored_target", "TPS_large_unit", "TPS_small_unit", "TPS_pixel_integers"]
 KINDS3 = tx.HOMOG + tx.EXTRA_HOMOG + ["tcoords3"]
 
 
@@ -224,6 +224,56 @@ def w_inverse(ctx, rng, i):
         if not (tx.maxdiff(fwd, tp) <= 1e-9 * unit) and not excused(t, sp, fwd):
             ctx.fail("inverse_warp_does_not_return_landmarks", cls="ThinPlateSplines", mech="large_unit:forward", err=tx.maxdiff(fwd, tp), unit=unit)
         opt = "unit"
+    elif kind in ("TPS_small_unit", "TPS_pixel_integers"):
+        from menpo.transform.rbf import R2LogR2RBF, R2LogRRBF
+        s, tg = tx.tps_pair(rng)
+        kcls = [None, R2LogR2RBF, R2LogRRBF][rng.integers(0, 3)]
+        if kind == "TPS_small_unit":
+            # normalised coordinates (fractions of the image size): the caller lowers the documented singular-value floor so that
+            # the spline keeps interpolating
+            unit = 10.0 ** rng.uniform(-1.6, -0.3)
+            sp, tp = s.points * unit / tx.BOX, tg.points * unit / tx.BOX
+            msv = 10.0 ** rng.uniform(-12, -9)
+            dt = "float64"
+        else:
+            # pixel positions kept in the compact integer type of the annotation file
+            dt = ["uint16", "int16", "uint8", "int32"][rng.integers(0, 4)]
+            unit = 100.0 if dt == "uint8" else 10.0 ** rng.uniform(2.5, 3.6)
+            lo = np.minimum(s.points.min(0), tg.points.min(0))
+            sp = np.round((s.points - lo) * unit / (2 * tx.BOX) + 3).astype(dt)
+            tp = np.round((tg.points - lo) * unit / (2 * tx.BOX) + 3).astype(dt)
+            msv = 1e-4
+            if len(np.unique(sp, axis=0)) < len(sp) or len(np.unique(tp, axis=0)) < len(tp):
+                ctx.count_case((kind, d, "coincident_after_rounding"), nontrivial=False)
+                return
+        kw_ = {} if kind == "TPS_pixel_integers" else {"min_singular_val": msv}
+        t = mt.ThinPlateSplines(ms.PointCloud(sp.copy()), ms.PointCloud(tp.copy()), kernel=None if kcls is None else kcls(sp.copy()), **kw_)
+        inv = t.pseudoinverse()
+        spf, tpf = np.asarray(sp, dtype=float), np.asarray(tp, dtype=float)
+
+        def floor_ok(q):
+            kk_ = (R2LogR2RBF if kcls is None else kcls)(q.copy()).apply(q.copy())
+            pp_ = np.hstack([np.ones((len(q), 1)), q])
+            sv_ = np.linalg.svd(np.block([[kk_, pp_], [pp_.T, np.zeros((3, 3))]]), compute_uv=False)
+            return sv_.min() > 100 * msv
+        ctx.tap("spline_inverse_in_other_units", "calls")
+        if floor_ok(tpf) and floor_ok(spf):
+            ctx.tap("spline_inverse_in_other_units", "checked")
+            try:
+                back = inv.apply(tpf.copy() if rng.random() < 0.7 else tp.copy())
+                fwd = t.apply(spf.copy())
+            except Exception as ex:
+                ctx.fail("inverse_rejects_points_of_its_domain", cls="ThinPlateSplines", mech=kind + ":" + type(ex).__name__, error=repr(ex)[:160])
+                return
+            e, ef = tx.maxdiff(back, spf), tx.maxdiff(fwd, tpf)
+            ctx.err(kind + "_landmark_return_rel", e / unit)
+            if not (e <= 1e-7 * unit):
+                ctx.fail("inverse_warp_does_not_return_landmarks", cls="ThinPlateSplines", mech=kind + ":" + dt, err=e, unit=unit)
+            if not (ef <= 1e-7 * unit):
+                ctx.fail("inverse_warp_does_not_return_landmarks", cls="ThinPlateSplines", mech=kind + ":forward:" + dt, err=ef, unit=unit)
+        else:
+            ctx.bump("tps_inverse_near_singular_floor_not_judged")
+        opt = dt
     elif kind == "PWA_trimesh_target":
         s, tg = tx.pwa_pair(rng)
         # the target handed over as a TriMesh that carries its own (different) triangulation
